@@ -44,7 +44,7 @@ Order == /\ status = "order" /\ R.verdict = "ok"
          /\ status' = "run"
          /\ UNCHANGED <<tid, R, X, lastg>>
 \* one clock cycle: pick a valuation; the invariants look at the cycle just chosen
-Cycle == /\ status \in {"run", "cyc"}
+Cycle == /\ status \in (IF Eager THEN {"run"} ELSE {"run", "cyc"})   \* the eager scheduler has no state
          /\ \E v \in Vals : X' = C!Context(v)
          /\ status' = "cyc"
          \* pointer / wait bookkeeping of the cycle that is being left
